@@ -281,9 +281,18 @@ pub mod reach {
         pub c: Option<Choice>,
         pub o: Other,
         pub alone: Lonely,
+        pub ph: super::generics::Ph<OnlyArg>,
+        pub ph2: Option<super::generics::NamedPh<OnlyArg2, u8>>,
     }
     #[derive(TypeInfo)]
     pub struct Lonely(pub bool);
+    /// only ever mentioned as a generic argument
+    #[derive(TypeInfo)]
+    pub struct OnlyArg(pub u8);
+    #[derive(TypeInfo)]
+    pub enum OnlyArg2 {
+        X,
+    }
 }
 
 pub mod compact_as {
